@@ -114,7 +114,7 @@ def _replace_function(src, fn_node, new_node):
 def _one(args):
     prop, mod, cls, name, kind, index = args
     from . import run as R
-    base = Repo()
+    base = Repo(normalise=False)
     node = base.funcs[(mod, cls, name)]
     new = apply(node, kind, index)
     if new is None:
